@@ -19,7 +19,10 @@ where
     for (_, n) in g.iter() {
         nodes.push((n.key().clone(), n.value().clone()));
 
-        for Edge(u, v, e) in n.iter() {
+        // Every edge is listed by both of its endpoints; serialise it once,
+        // from the node that created it, so that deserialising (which
+        // connects `u` to `v` again) does not double it.
+        for Edge(u, v, e) in n.iter().take(n.created_count()) {
             edges.push((u.key().clone(), v.key().clone(), e));
         }
     }
